@@ -270,6 +270,37 @@ def jsonld_context(items) -> dict:
     return ctx
 
 
+def roundtrip_impl(conv, fmt, syn, expand):
+    """Write `conv` with the real writer into a real file and read the file back with the real reader."""
+    import csv
+    import tempfile
+
+    import curies
+
+    d = tempfile.mkdtemp(prefix="rt-")
+    path = os.path.join(d, {"epm": "c.json", "jsonld": "c.jsonld", "shacl": "c.ttl", "tsv": "c.tsv"}[fmt])
+    try:
+        if fmt == "epm":
+            curies.write_extended_prefix_map(conv, path)
+            return curies.load_extended_prefix_map(Path(path))
+        if fmt == "jsonld":
+            curies.write_jsonld_context(conv, path, include_synonyms=syn, expand=expand)
+            return curies.load_jsonld_context(path, strict=not syn)
+        if fmt == "shacl":
+            curies.write_shacl(conv, path, include_synonyms=syn)
+            return curies.load_shacl(path, strict=not syn)
+        if fmt == "tsv":
+            curies.write_tsv(conv, path)
+            with open(path, newline="") as f:
+                rows = list(csv.reader(f, delimiter="\t"))
+            return curies.load_prefix_map({r[0]: r[1] for r in rows[1:]})
+        raise InvalidCase(fmt)
+    finally:
+        for f in os.listdir(d):
+            os.unlink(os.path.join(d, f))
+        os.rmdir(d)
+
+
 class InvalidCase(RuntimeError):
     """The case is not a well-formed program (only shrinking can produce one)."""
 
@@ -341,6 +372,9 @@ def run_impl(steps: list[dict], injected: dict | None = None, observer=None) -> 
                     out.append({"r": [enc_record(r) for r in v]})   # also when empty
                 else:
                     out.append(enc_val(v))
+            elif op == "roundtrip":
+                slots[st["dst"]] = roundtrip_impl(slots[st["src"]], st["fmt"], st.get("syn", False), st.get("expand", False))
+                out.append(None)
             elif op == "discover":
                 from curies.discovery import discover
 
@@ -485,6 +519,9 @@ def show_program(steps) -> list[str]:
         elif op in ("remap_curie", "remap_uri", "rewire"):
             out.append(f"c{st['dst']} = {op}(c{st['src']}, "
                        f"{ {uncps(k): uncps(v) for k, v in st['mapping']} })")
+        elif op == "roundtrip":
+            out.append(f"c{st['dst']} = read back what write_{st['fmt']}(c{st['src']}, include_synonyms={st.get('syn', False)}, "
+                       f"expand={st.get('expand', False)}) wrote")
         elif op == "discover":
             out.append(f"c{st['dst']} = discover({[uncps(u) for u in st['uris']]}, delimiters={[uncps(d) for d in st.get('delims', [])] or None}, "
                        f"cutoff={st.get('cutoff')}, metaprefix={uncps(st.get('metaprefix', [110, 115]))!r}, "
